@@ -1074,6 +1074,9 @@ func (e *absEnv) stdCall(fr *absFrame, name string, args []aval, depth int) (ava
 		return nil, false
 	}
 	switch base {
+	case "fmt.Errorf", "errors.New":
+		// a freshly made error: some non-nil error value
+		return aiface{aptr{&aobj{name: "error made by " + base, typ: types.Typ[types.Int], f: map[string]aval{}}, ""}, types.Typ[types.Int]}, true
 	case "slices.Clone":
 		es, ok := elems(args[0])
 		if !ok {
